@@ -212,7 +212,12 @@ def map_reports(reports, data, repo=None):
             # the innermost module frame is the access; reflective readers (json / reprint walking a struct) have
             # no module frame of their own below the api handler, so walk up until a table position is found
             approx = False
+            reflective = bool(stack) and stack[0][0].split(".")[0] in ("reflect", "encoding/json", "runtime", "fmt", "github.com/qdm12/reprint")
             for n, (f, l) in enumerate(own):
+                if n > 0 and not reflective:
+                    # the access itself is in a module function at a position the table does not know (memory that is not a
+                    # tracked field: a pooled buffer, a package-level cache ...): not to be blamed on a caller's field access
+                    break
                 hits = [a for a in by_pos.get(l, []) if a["kind"] == kind or kind == "?"]
                 hits = [a for a in hits if a["write"] == is_write] or hits
                 if hits:
@@ -338,6 +343,8 @@ def shared_curve_run(seed=0, tier="quick", data=None):
     try:
         ops = ["#case rc"] + [f"rc.shared kind={k} loops={2 + (seed + i) % 4} rounds={rounds} cycles=12"
                               for i, k in enumerate(["function", "linear", "pid", "function"])]
+        # controllers that share nothing (own sensor, own step curve, own fan), all at once
+        ops += [f"rc.indep loops={10 + seed % 7} rounds={max(6, rounds // 2)} cycles=80"]
         # one sensor object under its monitor, control loops and scrapes while its input fails and recovers
         ops += [f"rc.sensor kind={k} readers={2 + (seed + i) % 3} rounds={max(2, rounds // (6 if k == 'cmd' else 2))}"
                 for i, k in enumerate(["file", "hwmon", "cmd"])]
